@@ -528,6 +528,53 @@ func claimsSizeIn(b []byte, lo, hi uint64) bool {
 	return false
 }
 
+// claimsFatalSize: a header on a structural path of b (the item itself, or an
+// element reached by descending through list payloads as far as the bytes
+// allow) claims between 2^27 and 2^48 bytes: what a length-trusting decoder
+// would try to allocate and die of under the child's address-space limit.
+func claimsFatalSize(b []byte) bool {
+	for depth := 0; len(b) > 0 && depth < 64; {
+		t := b[0]
+		var hdr int
+		var size uint64
+		switch {
+		case t < 0x80:
+			b = b[1:]
+			continue
+		case t < 0xb8:
+			hdr, size = 1, uint64(t-0x80)
+		case t < 0xc0:
+			hdr = 1 + int(t-0xb7)
+		case t < 0xf8:
+			hdr, size = 1, uint64(t-0xc0)
+		default:
+			hdr = 1 + int(t-0xf7)
+		}
+		if hdr > 1 {
+			if hdr > len(b) {
+				hdr = len(b)
+			}
+			for _, c := range b[1:hdr] {
+				size = size<<8 | uint64(c)
+			}
+		}
+		if size >= 1<<27 && size < 1<<48 {
+			return true
+		}
+		isList := t >= 0xc0
+		switch {
+		case isList: // descend: the payload (as far as present) is the next thing a decoder looks at
+			b = b[hdr:]
+			depth++
+		case size <= uint64(len(b)-hdr): // skip the string
+			b = b[hdr+int(size):]
+		default:
+			return false
+		}
+	}
+	return false
+}
+
 // plainReader hides the concrete reader type so that Stream cannot discover the input length.
 type plainReader struct{ r *bytes.Reader }
 
